@@ -101,6 +101,7 @@ R.contract(
     ensures=[
         ("phase-tags-undefined", "tag('HP') not in header.formats and tag('PQ') not in header.formats and tag('PS') not in header.formats"),
         ("other-formats-kept", "forall(t, implies(t != tag('HP') and t != tag('PQ') and t != tag('PS'), (t in header.formats) == old(t in header.formats)))"),
+        ("info-definitions-kept", "forall(t, (t in header.info) == old(t in header.info))"),
         ("only-phasing-lines-removed", "forall(k, implies(0 <= k and k < len(header.hrecs) and header.hrecs[k].removed and not old(header.hrecs[k].removed), "
                                        "header.hrecs[k].key == tag('phasing')))"),
     ],
